@@ -428,12 +428,17 @@ class ExpectationWorld(_DeviceBase):
 
     def draw_config(self, rng):
         thorough = self.ctx.tier == "thorough"
-        return {"n_steps": rng.randint(5, 12) if not thorough else rng.randint(10, 24),
-                "max_width": rng.choice([1, 2, 3, 4] if not thorough else [2, 3, 4, 5]),
-                "n_shots": rng.choice([1, 7, 100, 5000] if not thorough else [1, 7, 100, 5000, 10 ** 5]),
-                "faults": rng.random() < 0.8, "sympy_budget": 1 if not thorough else 2,
-                "init_p": rng.choice([0.0, 0.4, 0.8]), "complex_p": rng.choice([0.0, 0.3, 0.6]),
-                "measure_p": rng.choice([0.0, 0.2, 0.4]), "wide_p": rng.choice([0.0, 0.05, 0.15])}
+        cfg = {"n_steps": rng.randint(5, 12) if not thorough else rng.randint(10, 24),
+               "max_width": rng.choice([1, 2, 3, 4] if not thorough else [2, 3, 4, 5]),
+               "n_shots": rng.choice([1, 7, 100, 5000] if not thorough else [1, 7, 100, 5000, 10 ** 5]),
+               "faults": rng.random() < 0.8, "sympy_budget": 1 if not thorough else 2,
+               "init_p": rng.choice([0.0, 0.4, 0.8]), "complex_p": rng.choice([0.0, 0.3, 0.6]),
+               "measure_p": rng.choice([0.0, 0.2, 0.4]), "wide_p": rng.choice([0.0, 0.05, 0.15])}
+        if cfg["n_shots"] > 5000 and (cfg["measure_p"] > 0 or cfg["wide_p"] > 0):
+            # mid-circuit measurements with a shot budget are simulated shot by shot (5 ms each, per operator term):
+            # 10^5 shots are kept for preparations without measurements
+            cfg["measure_p"], cfg["wide_p"] = 0.0, 0.0
+        return cfg
 
     def __init__(self, ctx, config=None):
         super().__init__(ctx, config)
